@@ -486,6 +486,9 @@ func fbb.(*Session).writeProposalsAnswer(s, rw, proposals) (nAccepted, err)
   ensures frame: forall k :: 0 <= k && k < len(proposals) ==> proposals[k] != nil
   loop 0 invariant unanswered: (forall j :: 0 <= j && j < len(unanswered) ==> 0 <= unanswered[j] && unanswered[j] < len(proposals)) && (s.h == nil ==> len(unanswered) == 0) && len(unanswered) <= $idx + 1
   # the indexes queued for the handler are strictly increasing (each proposal at most once)
+  # the session itself only ever defers (duplicates, unsupported formats, no handler): accepting
+  # and rejecting is the handler's decision
+  loop 0 invariant self-answers-defer [C05 C01]: forall k :: 0 <= k && k < len(proposals) ==> proposals[k].answer == '=' || proposals[k].answer == old(proposals[k].answer)
   loop 0 invariant increasing [C05 C01]: (forall a, b :: 0 <= a && a < b && b < len(unanswered) ==> unanswered[a] < unanswered[b]) && (forall j :: 0 <= j && j < len(unanswered) ==> unanswered[j] <= $idx)
   loop 0 invariant deferred: s.h == nil ==> forall k :: 0 <= k && k <= $idx ==> proposals[k].answer == '='
   loop 0 invariant props: forall k :: 0 <= k && k < len(proposals) ==> proposals[k] != nil
